@@ -242,7 +242,11 @@ class Tree(DictSWC):
 
             return branches, [node.id]
 
-        branches, _ = self.traverse(leave=collect_branches)
+        branches, child = self.traverse(leave=collect_branches)
+        if len(child) > 1:  # root with only one child, close the pending chain
+            child.reverse()
+            branches.insert(0, Tree.Branch(self, np.array(child, dtype=np.int32)))
+
         return branches
 
     def get_paths(self) -> list[Path]:
